@@ -1,0 +1,4 @@
+//! Re-exports of the `verif_hooks` modules that live in crate-private modules. Only built with
+//! the `_verif` feature; add-only, used by the out-of-tree verification harness.
+
+pub use crate::ln::channel::verif_hooks as channel;
